@@ -74,6 +74,14 @@ def run_chunked(case):
         return tr
     ev = [x for x in _verif.drain() if x["e"] == "ChunkPartials"]
     tr["out"] = "ok"
+    # count_ikey(mask): the selected rows per label, resolved through the same pieces / pointer tables (the observed filter reads it)
+    try:
+        kc = call(gb.count_ikey, mask=mask)
+        tr["kcount"] = [int(x) for x in np.asarray(kc).tolist()]
+    except Exception as ex:
+        tr["kcount"] = [-996]
+        tr["kcount_exc"] = f"{type(ex).__name__}: {ex}"[:160]
+    _verif.drain()
     arr, index = api.to_1d(out)
     res, _ = api.dec_values(op, arr, emb)
     by_label = {e.dec(x): r for x, r in zip(index.tolist(), res)}
